@@ -37,6 +37,8 @@ def run(model, rep, tier):
     from . import lifetime
     rep.rule('C07.R12', "each run sees only its own inputs (rules/lifetime.py): no function of the package is memoised across runs (functools.lru_cache / cache), module-level containers that functions add to are emptied at the start of a run, no mutable class attribute is shared through instances (mutated in place or handed out without being re-bound per instance), and no option with a mutable argparse default is mutated in place after parsing -- a second run in the same process (other layer objects under the same names, other outcomes, other filters) must not inherit the first run's state")
     lifetime.check(ctx, rep, 'C07.R12')
+    from . import robust
+    robust.asserts_have_no_effects(ctx, rep, 'C07.R20', 'C07')
     rep.units['cfg'] = ctx.cfg_stats
 
 
